@@ -396,11 +396,11 @@ func runC19(c *ctx) {
 	}
 	for k := 0; k < 6000*c.scale; k++ {
 		size := 3 + k%6
-		p, _, _ := constructedBoard(r, size, 1+r.Intn(6), 0.2+0.7*r.Float64())
-		if p.MoveNumber() < 2 {
+		_, bd, mv := constructedBoard(r, size, 1+r.Intn(6), 0.2+0.7*r.Float64())
+		if mv < 2 {
 			continue
 		}
-		emitC19(c, p, "constructed", true)
+		emitC19(c, evPos(r, evBoard(bd), mv, r.Intn(6) == 0, r.Intn(4) == 0), "constructed", true)
 	}
 	// exhaustive small boards
 	maxk3, maxk4 := 2, 1
